@@ -512,3 +512,20 @@ pub fn run(tier: Tier, seed: u64) -> i32 {
         &[("int_edits", 1000), ("quoted_edits", 200), ("byte_strings", 300), ("raw_strings", 100), ("cidrs", 100)],
     )
 }
+
+pub fn replay(case: &Value) -> Result<u64, String> {
+    let s = scheme();
+    let run = Run::new("replay", "exploration", Tier::Quick, 0);
+    let text = case["text"].as_str().ok_or("text")?;
+    let want = if case["expected"] == "reject" {
+        Want::Reject
+    } else if case.get("expected").is_some() && !case["expected"].is_null() {
+        Want::Value(case["expected"].clone())
+    } else {
+        // a recorded panic: any outcome but a panic is fine
+        let _ = parse_json(&run, &s, text);
+        return Ok(run.violations_seen());
+    };
+    expect(&run, &s, text, case["pointer"].as_str().unwrap_or("/rhs"), &want, "replay");
+    Ok(run.violations_seen())
+}
